@@ -381,6 +381,36 @@ static Outcome ArchiveLeg(RunCtx& ctx, Outcome& out)
 	std::string expect = ToUtf8(text);
 	if (got.s != expect) return Violation("WRONG_VALUE", tags + " what=text", "loaded string differs: " + DiffAt(sim::hex(expect, 4096), sim::hex(got.s, 4096)));
 	out.nontrivial = enc != 0 && info.underflows >= 2;
+
+	// the way back: the archive writes the same text to a stream in the same encoding (with and without pretty-printing, with the
+	// BOM when the document had one or when it is needed for detection), and what it wrote is loaded again
+	{
+		SerializationOptions so;
+		so.streamOptions.encoding = static_cast<UtfType>(enc);
+		so.streamOptions.writeBom = bom;
+		const bool pretty = which != 0 && s.chance(sim::L_CFG, 1, 2);
+		if (pretty) { so.formatOptions.enableFormat = true; so.formatOptions.paddingChar = s.chance(sim::L_CFG, 1, 2) ? ' ' : '\t'; so.formatOptions.paddingCharNum = static_cast<uint16_t>(1 + s.draw(sim::L_CFG, 3)); }
+		DynNode doc = Skeleton(root);
+		(which == 0 ? doc.items[0].items[0] : doc.items[0]).s = expect;
+		std::string written;
+		OutCfg oc; oc.stream = true; static const uint32_t bufs[] = { 0, 1, 7, 4096 }; oc.bufSize = s.pick(sim::L_IO, bufs);
+		sim::steps_begin(3000ull * (bytes.size() + 65536));
+		const CallResult sv = SaveDynWith(GetOps(archive), doc, written, so, oc);
+		sim::steps_end();
+		const std::string stags = tags + (pretty ? " format=1" : " format=0") + " dir=save";
+		if (!sv.ok) return Violation("WRONG_EXCEPTION", stags + " exc=" + sv.cat, "saving the text to a " + std::string(EncName(enc)) + " stream failed: " + sv.cat + " (" + sv.what + ")");
+		if (bom && written.compare(0, RefBom(enc).size(), RefBom(enc)) != 0) return Violation("WRONG_VALUE", stags + " what=bom", "the written document does not start with the BOM of " + std::string(EncName(enc)) + ": " + sim::hex(written, 16));
+		DynNode back = Skeleton(root);
+		sim::steps_begin(3000ull * (written.size() + 4096));
+		InCfg backCfg;
+		backCfg.stream = true;
+		const CallResult rl = LoadDynWith(GetOps(archive), back, written, o, backCfg);
+		sim::steps_end();
+		if (!rl.ok) return Violation("WRONG_EXCEPTION", stags + " what=unloadable exc=" + rl.cat, "what the archive wrote to the " + std::string(EncName(enc)) + " stream cannot be loaded: " + rl.cat + " (" + rl.what + ") bytes=" + sim::hex(written, 120));
+		const DynNode& got2 = which == 0 ? back.items[0].items[0] : back.items[0];
+		if (got2.s != expect) return Violation("WRONG_VALUE", stags + " what=text", "text written to the stream and loaded again differs: " + DiffAt(sim::hex(expect, 4096), sim::hex(got2.s, 4096)));
+		sim::probe("archive-save-to-encoded-stream");
+	}
 	return out;
 }
 
